@@ -1,13 +1,19 @@
-"""Worker process of Engine M: decides one share of the cubes of one query family.
+"""Worker process of Engine M: decides one query family.
 
 usage: python3-vt -m mirsmt.worker <spec.json> <out.json>
 
-spec = {mir, src, cap, freelist, maxn, retries, progs: [[action,...],...], steps: [K_t per thread], kind: safe|live|hb|crash,
-        switches: 2|3, share: [i, n], cube_timeout_s, first: 0|1|null}
-A *plan* is X^a Y^b X^* Y^* (3 switches) or X^a Y^* X^* (2 switches): the lengths a (and b) are the cube; the
-starred chunks run their thread until it has finished.  Every cube is one incremental SAT call (z3 QF_FD:
-bit-blasting + CDCL with assumptions) over all initial states satisfying INV, all operation arguments and all
-behaviours of compare_exchange_weak within the bound; the union of the cubes is the whole family."""
+spec = {name, mir, src, cap, freelist, retries, min_seg,
+        init: "fresh" | "inv", maxn (inv only),
+        progs: [[action,...],...]   with init == "fresh" thread 0 is the *setup* thread: it runs alone, first, to completion
+        args: {"<thread>": {"<arg index>": value | [lo, hi]}},
+        steps: [K_t per thread], switches: 1|2|3, first: the concurrent thread that moves first,
+        kind: safe | live | hb | crash, timeout_s}
+
+Schedule shapes (X = first, Y = the other concurrent thread; a starred chunk runs its thread until it has finished, the length of
+the other chunks is chosen by the solver):  1 switch X* Y*;  2 switches X^a Y* X*;  3 switches X^a Y^b X* Y*.  Every complete
+schedule of two threads with at most that many context switches has one of these shapes (for either choice of X).
+One query = one SAT problem (z3: simplify, bit-blast, sat) over all chunk lengths, all arguments in their ranges, all outcomes of
+compare_exchange_weak within the spurious-failure bound and - for init == "inv" - all initial states satisfying INV."""
 import sys, os, json, time, traceback
 import z3
 from . import world as Wd, bmc, ts as TS
@@ -19,8 +25,7 @@ def build_threads(w, progs):
     for i, pr in enumerate(progs):
         acts = [tuple(a) for a in pr]
         io = {a[3]: (a[1] - 2, a[2] - 2) for a in acts if a[0] == "free_given"}
-        nown = max([a[3] + 1 for a in acts if a[0] == "free_given"] + [0]) + sum(1 for a in acts if a[0] == "alloc_bytes")
-        ths.append(w.thread("T%d" % i, "client::prog_%d" % i, nown=max(nown, 1), init_owned=io))
+        ths.append(w.thread("T%d" % i, "client::prog_%d" % i, nown=max(Wd.nslots(acts), 1), init_owned=io))
     return ths
 
 
@@ -46,222 +51,206 @@ def reopen_words(M, w, W):
     return out
 
 
-class Family:
-    def __init__(self, spec):
-        self.spec = spec
-        mir_text = open(spec["mir"]).read()
-        self.progs = spec["progs"]
-        self.w = Wd.World(mir_text, spec["src"], cap=spec["cap"], freelist=spec["freelist"], max_retries=spec.get("retries", 1),
-                          extra_mir=client_text(self.progs))
-        self.ths = build_threads(self.w, self.progs)
-        self.kind = spec["kind"]
-        self.functions = sorted(set(fr[0] for t in self.ths for p in t.by_id.values() if p.frames for fr in p.frames))
-
-    def plans(self):
-        steps = self.spec["steps"]
-        sw = self.spec.get("switches", 2)
-        T = len(self.ths)
-        if self.kind == "crash":
-            return [("crash", [(0, steps[0]), (1, steps[1])], 1)]
-        if T == 1:
-            return [("solo", [(0, steps[0])], 0)]
-        out = []
-        firsts = [self.spec["first"]] if self.spec.get("first") is not None else [0, 1]
-        for x in firsts:
-            y = 1 - x
-            if sw <= 2:
-                out.append(("%d%d%d" % (x, y, x), [(x, steps[x]), (y, steps[y]), (x, steps[x])], 1))
-            else:
-                out.append(("%d%d%d%d" % (x, y, x, y), [(x, steps[x]), (y, steps[y]), (x, steps[x]), (y, steps[y])], 2))
-        return out
-
-    def model(self, plan):
-        w = self.w
-        M = bmc.Model(self.spec["cap"], self.ths, plan, hb=(self.kind == "hb"), dofs=w.dofs)
-        M.build()
-        ic, inv = w.init_inv(M, self.spec["maxn"], self.spec["freelist"])
-        init = ic + w.init_threads(M) + w.init_owned_ok(M, inv)
-        for i, t in enumerate(self.ths):
-            init.append(t.arg_vars[4] == 0x11 * (i + 1))
-        if self.kind == "hb":
-            init += M.hb_init()
-        return M, init, inv
-
-    def cubes(self, plan, nfree):
-        if nfree == 0:
-            return [()]
-        if nfree == 1:
-            return [(a,) for a in range(plan[0][1] + 1)]
-        return [(a, b) for a in range(plan[0][1] + 1) for b in range(plan[1][1] + 1)]
-
-
-def decode_cex(F, M, inv, m, what):
-    w = F.w
-    ev = lambda e: m.eval(e, model_completion=True)
-    cex = {"what": what, "cap": F.spec["cap"], "freelist": F.spec["freelist"], "retries": F.spec.get("retries", 1), "progs": F.progs,
-           "plan": M.chunks, "kind": F.kind, "data_offset": w.dofs, "header_offset": w.hdr,
-           "words0": [ev(x).as_long() for x in M.W[0][: M.NW - 1]],
-           "inv": {"k": ev(inv["k"]).as_long(), "off": [ev(x).as_long() for x in inv["off"]], "size": [ev(x).as_long() for x in inv["size"]],
-                   "allocated": ev(inv["allocated"]).as_long(), "min_seg": ev(inv["min_seg"]).as_long(), "discarded": ev(inv["discarded"]).as_long()},
-           "args": [[ev(a).as_long() for a in t.arg_vars] for t in F.ths],
-           "steps": M.decode(m)}
-    cex["schedule"] = [s["thread"] for s in cex["steps"]]
-    bad_at = []
-    for k in range(M.K + 1):
-        for n, e in M.bad(k).items():
-            if z3.is_true(ev(e)):
-                bad_at.append([k, n])
-    cex["bad"] = bad_at[:6]
-    own = []
-    for ti, t in enumerate(F.ths):
-        for j in range(t.nown):
-            live, lo, hi, plo, phi = [ev(x) for x in M.own(M.K, ti, j)]
-            own.append({"thread": ti, "slot": j, "live": z3.is_true(live), "lo": lo.as_long(), "hi": hi.as_long(), "plo": plo.as_long(), "phi": phi.as_long()})
-    cex["own_final"] = own
-    return cex
+def plan_for(spec, nthreads):
+    """-> (chunks, free): indices of the chunks whose length the solver chooses; all others run to completion"""
+    steps = spec["steps"]
+    kind = spec["kind"]
+    fresh = spec.get("init", "fresh") == "fresh"
+    pre = [(0, steps[0])] if fresh else []
+    conc = list(range(1 if fresh else 0, nthreads))
+    if kind == "crash":
+        v, s = conc[0], conc[1]
+        return pre + [(v, steps[v]), (s, steps[s])], [len(pre)]
+    if len(conc) == 1:
+        return pre + [(conc[0], steps[conc[0]])], []
+    x = spec.get("first", conc[0])
+    y = [c for c in conc if c != x][0]
+    sw = spec.get("switches", 2)
+    if sw <= 1:
+        return pre + [(x, steps[x]), (y, steps[y])], []
+    if sw == 2:
+        return pre + [(x, steps[x]), (y, steps[y]), (x, steps[x])], [len(pre)]
+    return pre + [(x, steps[x]), (y, steps[y]), (x, steps[x]), (y, steps[y])], [len(pre), len(pre) + 1]
 
 
 def run(spec):
     t_start = time.time()
-    F = Family(spec)
-    kind = F.kind
-    res = {"family": spec["name"], "kind": kind, "share": spec.get("share"), "cubes": 0, "unsat": 0, "sat": 0, "unknown": 0, "solver_s": 0.0,
-           "cex": [], "bound_exceeded": [], "functions": F.functions, "reach": {}, "plans": [], "points": [len(t.points) for t in F.ths],
-           "regs": [sum(t.regs.values()) for t in F.ths], "encode_s": 0.0}
-    share = spec.get("share") or [0, 1]
-    cube_to = spec.get("cube_timeout_s", 120)
-    deadline = t_start + spec.get("budget_s", 3000)
-    for (pname, plan, nfree) in F.plans():
+    mir_text = open(spec["mir"]).read()
+    progs = spec["progs"]
+    kind = spec["kind"]
+    w = Wd.World(mir_text, spec["src"], cap=spec["cap"], freelist=spec["freelist"], max_retries=spec.get("retries", 1), extra_mir=client_text(progs))
+    ths = build_threads(w, progs)
+    T = len(ths)
+    chunks, free = plan_for(spec, T)
+    M = bmc.Model(spec["cap"], ths, chunks, hb=(kind == "hb"), dofs=w.dofs, spurious=spec.get("spurious", 1))
+    M.build()
+    K = M.K
+    inv = None
+    if spec.get("init", "fresh") == "fresh":
+        init = w.init_fresh(M, min_seg=spec.get("min_seg", 8)) + w.init_threads(M)
+    else:
+        ic, inv = w.init_inv(M, spec.get("maxn", 1), spec["freelist"])
+        init = ic + w.init_threads(M) + w.init_owned_ok(M, inv)
+    for i, t in enumerate(ths):
+        init.append(t.arg_vars[4] == 0x11 * (i + 1))
+        for ai, v in (spec.get("args", {}).get(str(i), {})).items():
+            a = t.arg_vars[int(ai)]
+            if isinstance(v, list):
+                init += [z3.UGE(a, v[0]), z3.ULE(a, v[1])]
+            else:
+                init.append(a == v)
+    if kind == "hb":
+        init += M.hb_init()
+    dead = set()
+    if kind == "crash":
+        dead.add(chunks[free[0]][0])
+    for k in range(K):
+        if M.chunk_of[k] not in free:
+            init.append(M.run[k] == z3.Not(M.finished(k, M.plan[k])))
+    if kind == "crash":
+        kc = sum(n for (_, n) in chunks[: free[0] + 1])
+        Wr = reopen_words(M, w, M.W[kc])
+        fresh_w = [z3.BitVec("Wre_%d" % i, 64) for i in range(M.NW)]
+        pairs = list(zip(M.W[kc], fresh_w))
+        M.cons = []
+        for k in range(K):
+            ti = M.plan[k]
+            rel = z3.substitute(M.tmpl[ti]["rel"], *M._pairs(k, ti))
+            if k == kc:
+                rel = z3.substitute(rel, *pairs)
+            M.cons.append(rel)
+            if k > 0 and M.chunk_of[k] == M.chunk_of[k - 1]:
+                M.cons.append(z3.Implies(z3.Not(M.run[k - 1]), z3.Not(M.run[k])))
+        for i in range(M.NW):
+            M.cons.append(fresh_w[i] == Wr[i])
+    alive = [ti for ti in range(T) if ti not in dead]
+    done_end = z3.And([M.finished(K, ti) for ti in alive])
+    stuck_terms = []
+    for k in range(K):
+        ti = M.plan[k]
+        if ti in dead:
+            continue
+        others = [M.finished(k, o) for o in alive if o != ti]
+        stuck_terms.append(z3.And(M.stutter(k), *others))
+    stuck = z3.Or(stuck_terms) if stuck_terms else z3.BoolVal(False)
+    race = M.H[K]["race"] if kind == "hb" else z3.BoolVal(False)
+    viol = {"safe": M.any_bad(), "crash": z3.Or(M.any_bad(), stuck), "live": stuck, "hb": race}[kind]
+    res = {"family": spec["name"], "kind": kind, "chunks": chunks, "free_chunks": free, "steps": K, "points": [len(t.points) for t in ths],
+           "regs": [sum(t.regs.values()) for t in ths], "encode_s": round(time.time() - t_start, 1), "queries": [], "cex": None,
+           "functions": sorted(set(fr[0] for t in ths for p in t.by_id.values() if p.frames for fr in p.frames))}
+    to = spec.get("timeout_s", 900)
+
+    def ask(label, extra):
+        tac = z3.Then("simplify", "bit-blast", "sat")
+        s = tac.solver()
+        s.set("timeout", int(to * 1000))
+        s.add(M.cons)
+        s.add(init)
+        s.add(extra)
         t0 = time.time()
-        M, init, inv = F.model(plan)
-        T = len(F.ths)
-        K = M.K
-        hard = list(init)
-        # starred chunks: the thread runs until it has finished
-        k0 = sum(n for (_, n) in plan[:nfree])
-        for k in range(k0, K):
-            hard.append(M.run[k] == z3.Not(M.finished(k, M.plan[k])))
-        # crash: thread 0 dies at the end of its chunk; the file image is reopened
-        dead = set()
+        r = s.check()
+        dt = time.time() - t0
+        res["queries"].append({"query": label, "verdict": str(r), "solver_s": round(dt, 1)})
+        return str(r), (s.model() if r == z3.sat else None)
+
+    if kind == "safe" and spec.get("selftest"):
+        # translator self-test: the encoding's prediction of the final memory for a deterministic program, to be
+        # compared with what the real code leaves in memory when the same program is run natively
+        r, m = ask("selftest: run to completion", [done_end])
+        res["verdict"] = "unsat" if r == "sat" else r
+        if r == "sat":
+            res["selftest"] = {"final_words": [m.eval(x, model_completion=True).as_long() for x in M.W[K][: M.NW - 1]],
+                               "violation_in_model": z3.is_true(m.eval(viol, model_completion=True)),
+                               "cex": decode_cex(spec, w, ths, M, inv, m, kind, dead)}
+        res["solver_s"] = round(sum(q["solver_s"] for q in res["queries"]), 1)
+        res["wall_s"] = round(time.time() - t_start, 1)
+        return res
+    # one query for "some violation, or some thread left unfinished by the step bounds"
+    unfinished = z3.And(z3.Not(done_end), z3.Not(stuck))
+    r, m = ask("violation or step bound exceeded", [z3.Or(viol, unfinished)])
+    if r == "sat" and not z3.is_true(m.eval(viol, model_completion=True)):
+        # only the bound disjunct is satisfiable in this model: ask for a real violation separately
+        res["bound_ok"] = "sat"
+        res["bound_witness"] = [s_["desc"] for s_ in M.decode(m)][-6:]
+        r, m = ask("violation", [viol])
+    elif r == "unsat":
+        res["bound_ok"] = "unsat"
+    res["verdict"] = r
+    if r == "sat":
+        res["cex"] = decode_cex(spec, w, ths, M, inv, m, kind, dead)
+    if r == "unsat" and not spec.get("only_violation"):
+        r3, _ = ask("reach: all threads finish", [done_end, z3.Not(viol)])
+        res["reach_finish"] = r3
+        conc = [ti for ti in alive if not (spec.get("init", "fresh") == "fresh" and ti == 0)]
         if kind == "crash":
-            dead.add(0)
-        done_end = z3.And([M.finished(K, ti) for ti in range(T) if ti not in dead])
-        stuck = []
+            v = chunks[free[0]][0]
+            kc = sum(n for (_, n) in chunks[: free[0] + 1])
+            r4, _ = ask("reach: victim dies inside an operation", [z3.Not(M.finished(kc, v)), z3.UGT(M.pc[kc][v], 0)])
+            res["reach_interference"] = r4
+        elif len(conc) > 1:
+            inter = []
+            for k in range(K):
+                ti = M.plan[k]
+                if ti not in conc:
+                    continue
+                t = ths[ti]
+                pts = [p.id for p in t.by_id.values() if p.op["kind"] in ("compare_exchange", "compare_exchange_weak")]
+                if pts:
+                    inter.append(z3.And(M.run[k], z3.Or([M.pc[k][ti] == p for p in pts]), z3.Not(M.res_ok[k]), z3.Not(M.spur[k])))
+            r4, _ = ask("reach: a CAS is lost to the other thread", [z3.Or(inter)] if inter else [z3.BoolVal(False)])
+            res["reach_interference"] = r4
+    res["solver_s"] = round(sum(q["solver_s"] for q in res["queries"]), 1)
+    res["wall_s"] = round(time.time() - t_start, 1)
+    return res
+
+
+def decode_cex(spec, w, ths, M, inv, m, what, dead):
+    ev = lambda e: m.eval(e, model_completion=True)
+    K = M.K
+    cex = {"what": what, "cap": spec["cap"], "freelist": spec["freelist"], "retries": spec.get("retries", 1), "min_seg": spec.get("min_seg", 8),
+           "init": spec.get("init", "fresh"), "progs": spec["progs"], "chunks": M.chunks, "data_offset": w.dofs, "header_offset": w.hdr,
+           "words0": [ev(x).as_long() for x in M.W[0][: M.NW - 1]],
+           "args": [[ev(a).as_long() for a in t.arg_vars] for t in ths],
+           "steps": M.decode(m), "dead": sorted(dead)}
+    if inv is not None:
+        cex["inv"] = {"k": ev(inv["k"]).as_long(), "off": [ev(x).as_long() for x in inv["off"]], "size": [ev(x).as_long() for x in inv["size"]],
+                      "allocated": ev(inv["allocated"]).as_long(), "min_seg": ev(inv["min_seg"]).as_long(), "discarded": ev(inv["discarded"]).as_long()}
+    cex["schedule"] = [s["thread"] for s in cex["steps"]]
+    bad_at = []
+    for k in range(K + 1):
+        for n, e in M.bad(k).items():
+            if z3.is_true(ev(e)):
+                bad_at.append([k, n])
+                break
+        if bad_at:
+            break
+    cex["bad"] = bad_at
+    own = []
+    kk = bad_at[0][0] if bad_at else K
+    for ti, t in enumerate(ths):
+        for j in range(t.nown):
+            live, lo, hi, plo, phi = [ev(x) for x in M.own(kk, ti, j)]
+            own.append({"thread": ti, "slot": j, "live": z3.is_true(live), "lo": lo.as_long(), "hi": hi.as_long(), "plo": plo.as_long(), "phi": phi.as_long()})
+    cex["own_at_violation"] = own
+    if what in ("live", "crash"):
         for k in range(K):
             ti = M.plan[k]
             if ti in dead:
                 continue
-            others = [M.finished(k, o) for o in range(T) if o != ti and o not in dead]
-            stuck.append(z3.And(M.stutter(k), *others))
-        stuck = z3.Or(stuck) if stuck else z3.BoolVal(False)
-        viol = {"safe": M.any_bad(), "crash": z3.Or(M.any_bad(), stuck), "live": stuck,
-                "hb": (M.H[K]["race"] if kind == "hb" else z3.BoolVal(False))}[kind]
-        not_done = z3.Not(done_end)
-        s = z3.SolverFor("QF_FD")
-        s.set("timeout", int(cube_to * 1000))
-        if kind == "crash":
-            # the reopen transformation sits between the two chunks: re-express thread 1's first memory
-            kc = plan[0][1]
-            Wr = reopen_words(M, F.w, M.W[kc])
-            # steps >= kc read the reopened image `fresh` instead of W[kc]: the step constraints are re-instantiated
-            fresh = [z3.BitVec("Wre_%d" % i, 64) for i in range(M.NW)]
-            pairs = list(zip(M.W[kc], fresh))
-            M.cons = []
-            for k in range(K):
-                ti = M.plan[k]
-                rel = z3.substitute(M.tmpl[ti]["rel"], *M._pairs(k, ti))
-                if k == kc:
-                    rel = z3.substitute(rel, *pairs)
-                M.cons.append(rel)
-                if k > 0 and M.chunk_of[k] == M.chunk_of[k - 1]:
-                    M.cons.append(z3.Implies(z3.Not(M.run[k - 1]), z3.Not(M.run[k])))
-            for i in range(M.NW):
-                M.cons.append(fresh[i] == Wr[i])
-            M.reopened = fresh
-        s.add(M.cons)
-        s.add(hard)
-        flag_v, flag_n = z3.Bool("q_violation"), z3.Bool("q_notdone")
-        s.add(flag_v == viol)
-        s.add(flag_n == not_done)
-        flag_any = z3.Bool("q_any")
-        s.add(flag_any == z3.Or(flag_v, flag_n))
-        res["encode_s"] += time.time() - t0
-        res["plans"].append({"plan": pname, "chunks": plan, "steps": K})
-        cubes = F.cubes(plan, nfree)
-        mine = [c for i, c in enumerate(cubes) if i % share[1] == share[0]]
-        for cube in mine:
-            if time.time() > deadline:
-                res["unknown"] += 1
-                res["bound_exceeded"].append({"plan": pname, "cube": list(cube), "why": "worker budget exhausted"})
-                continue
-            ass = []
-            k = 0
-            for (ti, n), L in zip(plan[:nfree], cube):
-                for j in range(n):
-                    ass.append(M.run[k] if j < L else z3.Not(M.run[k]))
-                    k += 1
-            t1 = time.time()
-            r = s.check(*(ass + [flag_any]))
-            dt = time.time() - t1
-            res["solver_s"] += dt
-            res["cubes"] += 1
-            if r == z3.unsat:
-                res["unsat"] += 1
-                continue
-            if r != z3.sat:
-                res["unknown"] += 1
-                res["bound_exceeded"].append({"plan": pname, "cube": list(cube), "why": "solver: " + str(r)})
-                continue
-            # which disjunct? prefer a real violation
-            r2 = s.check(*(ass + [flag_v]))
-            res["solver_s"] += time.time() - t1 - dt
-            if r2 == z3.sat:
-                res["sat"] += 1
-                if len(res["cex"]) < 3:
-                    cex = decode_cex(F, M, inv, s.model(), kind)
-                    cex["plan_name"], cex["cube"] = pname, list(cube)
-                    if kind in ("live", "crash"):
-                        m = s.model()
-                        for k in range(K):
-                            ti = M.plan[k]
-                            if ti in dead:
-                                continue
-                            if z3.is_true(m.eval(M.stutter(k), model_completion=True)):
-                                a = m.eval(M.at_step(k, M.tmpl[ti]["spin_addr"]), model_completion=True).as_long()
-                                wv = m.eval(M.at_step(k, M.tmpl[ti]["spin_word"]), model_completion=True).as_long()
-                                p = F.ths[ti].by_id.get(m.eval(M.pc[k][ti], model_completion=True).as_long())
-                                cex["spin"] = {"k": k, "thread": ti, "addr": a, "word": wv, "point": p.desc if p else "?"}
-                                break
-                    if kind == "hb":
-                        cex["witness_byte"] = s.model().eval(M.wit, model_completion=True).as_long()
-                    if kind == "crash":
-                        cex["reopened_words"] = [s.model().eval(x, model_completion=True).as_long() for x in M.reopened[: M.NW - 1]]
-                    res["cex"].append(cex)
-            elif r2 == z3.unsat:
-                res["unsat"] += 1
-                res["bound_exceeded"].append({"plan": pname, "cube": list(cube), "why": "a thread has not finished within its step bound"})
-            else:
-                res["unknown"] += 1
-        # vacuity witnesses for this plan (first worker only): the programs can complete, and interference is reachable
-        if share[0] == 0:
-            s.set("timeout", int(4 * cube_to * 1000))
-            t1 = time.time()
-            r = s.check(z3.Not(flag_v), z3.Not(flag_n))
-            res["reach"][pname + ":all_finish"] = str(r)
-            if len(F.ths) > 1 and kind != "crash":
-                casfail = []
-                for k in range(K):
-                    t = F.ths[M.plan[k]]
-                    pts = [p.id for p in t.by_id.values() if p.op["kind"] in ("compare_exchange", "compare_exchange_weak")]
-                    if pts:
-                        casfail.append(z3.And(M.run[k], z3.Or([M.pc[k][M.plan[k]] == p for p in pts]), z3.Not(M.res_ok[k]), z3.Not(M.spur[k])))
-                cf = z3.Bool("q_casfail")
-                s.add(cf == z3.Or(casfail))
-                r = s.check(z3.Not(flag_n), cf)
-                res["reach"][pname + ":cas_lost_to_other_thread"] = str(r)
-            res["solver_s"] += time.time() - t1
-    res["wall_s"] = time.time() - t_start
-    return res
+            if z3.is_true(ev(M.stutter(k))) and all(z3.is_true(ev(M.finished(k, o))) for o in range(len(ths)) if o != ti and o not in dead):
+                a = ev(M.at_step(k, M.tmpl[ti]["spin_addr"])).as_long()
+                wv = ev(M.at_step(k, M.tmpl[ti]["spin_word"])).as_long()
+                p = ths[ti].by_id.get(ev(M.pc[k][ti]).as_long())
+                cex["spin"] = {"k": k, "thread": ti, "addr": a, "word": wv, "point": p.desc if p else "?",
+                               "fn": p.frames[-1][0] if p and p.frames else "?"}
+                cex["schedule"] = [s["thread"] for s in cex["steps"] if s["k"] < k]
+                cex["steps"] = [s for s in cex["steps"] if s["k"] <= k]
+                break
+    if what == "hb":
+        cex["witness_byte"] = ev(M.wit).as_long()
+    if what == "crash":
+        cex["crash_after_steps"] = len([s for s in cex["steps"] if s["thread"] in dead])
+    return cex
 
 
 def main():
